@@ -527,6 +527,29 @@ pub fn gen_rx(rng: &mut Prng, depth: usize) -> Rx {
             _ => Bytes(vec![b'a', b'b']),
         };
     }
+    // nested iterations over multi-byte words: bodies that come back to their initial state
+    // only through a cycle of several bytes, with and without a terminator after the inner loop
+    if rng.chance(1, 10) {
+        let w = |rng: &mut Prng| Word((*rng.pick(&["ab", "abc", "ba", "aab", "a", "c", "bc", "ca"])).to_string());
+        let it = |rng: &mut Prng, x: Rx| match rng.below(5) {
+            0 | 1 => Star(Box::new(x)),
+            2 => Plus(Box::new(x)),
+            3 => Opt(Box::new(x)),
+            _ => SepList(Box::new(x), Box::new(Bytes(vec![b','])),),
+        };
+        let inner = {
+            let x = w(rng);
+            it(rng, x)
+        };
+        let t = w(rng);
+        let body = match rng.below(4) {
+            0 | 1 => Cat(vec![inner, t]),
+            2 => Cat(vec![t, inner]),
+            _ => Union(vec![inner, t]),
+        };
+        let outer = it(rng, body);
+        return if rng.chance(1, 2) { outer } else { Cat(vec![outer, w(rng)]) };
+    }
     let sub = |rng: &mut Prng| Box::new(gen_rx(rng, depth - 1));
     let many = |rng: &mut Prng| -> Vec<Rx> {
         let n = rng.range(2, 3);
